@@ -3,6 +3,8 @@
    [repaired] is the model of datatype/neuronjson with repo_patches/C16-{1..9}-fix.diff applied,
    [interim] with only the first six, [shipped] with none (Model/NJ.v, record [variant]). *)
 From DV Require Import Base.Prelude Model.NJ Proofs.NJBase Proofs.NJ Proofs.NJUpdate.
+(* POST query is read-only (C16_query_is_readonly, C16_queries_erasable): its own file, cited by C02 *)
+From DV Require Export Props.C16_readonly.
 Local Open Scope N_scope.
 
 (* For EVERY history of POST key / POST keyvalues (plain, replace, conditional fields; accepted or
